@@ -396,7 +396,16 @@ func Abort(why Outcome) {
 	panic(abortPanic{why})
 }
 
+// aborts counts aborted runs of this process (see Aborts).
+var aborts atomic.Int64
+
+// Aborts returns how many runs have been aborted so far (stall, step limit, operation
+// budget, panic). The tasks of an aborted run are frozen at their next scheduling point
+// for good; anything that could wake them later must check this first.
+func Aborts() int64 { return aborts.Load() }
+
 func (s *Sched) abort(why Outcome, detail string) {
+	aborts.Add(1)
 	s.mu.Lock()
 	if s.outcome == "" {
 		s.outcome = why
